@@ -192,3 +192,28 @@ def run(env, rep):
                     others.append(b.pretty)
     rep.check("C07.R5", "single-writer", not others, "only set_max_chunk_size (and the constructor aggregate) writes ChunkSerializer::max_chunk_size",
               "ChunkSerializer::max_chunk_size is also assigned in %s" % sorted(set(others)), sm.span)
+    # ------------------------------------------------------------------ R6 no empty chunk after the payload
+    se = m.b["serialize"]
+    it = ctx.interp(se.key)
+    from .. import interp as I
+    I.CUR_BODY[0] = se
+    from ..models import range_bounds
+    n6 = 0
+    for head, blocks in se.loops.items():
+        for bi in sorted(blocks):
+            t = se.blocks[bi]["term"]
+            if t["k"] != "call" or "Index" not in (t["callee"].get("orig_pretty") or ""):
+                continue
+            S, args = args_at(ctx, se.key, bi)
+            if S is None:
+                continue
+            ln = it.len_of_ref(S, args[0], it.op_type(t["args"][0]))
+            rb = range_bounds(it, S, args[1], ln)
+            if rb is None:
+                continue
+            n6 += 1
+            from ..interp import stable
+            rep.check("C07.R6", "slice-starts-inside-payload", S.prove_lt(rb[0], ln), "every slice taken in the splitting loop starts before the end of the payload (start %s < len)" % stable(rb[0]),
+                      "the splitting loop can take a slice starting at %s, which is not provably < the payload length: a message whose length is an exact multiple of the chunk size "
+                      "would get an extra, empty chunk after it is complete" % stable(rb[0]), t["span"])
+    rep.floor("C07.R6", "payload slices taken inside the splitting loop", n6, 1)
